@@ -136,17 +136,14 @@ package customize
 //@   ensures [C14,C15] typeis(obj, *unstructured.Unstructured) ==> count(Manager.notifyRelatedParents) == 1
 //@   ensures [C14,C15] typeis(obj, cache.DeletedFinalStateUnknown) && typeis(unbox(obj, cache.DeletedFinalStateUnknown).Obj, *unstructured.Unstructured) ==> count(Manager.notifyRelatedParents) == 1
 
-//@ pred handlersOK(iw) = forall j int :: 0 <= j && j < len(iw.sharedResourceInformer.eventHandlers.handlers[iw]) ==> iw.sharedResourceInformer.eventHandlers.handlers[iw][j] != nil
-
 // Stop releases every related informer this manager subscribed to: handlers removed, then closed.
 //@ func Manager.Stop(rm) ()
 //@   requires validRM(rm)
-//@   requires forall k schema.GroupVersionResource :: has(rm.relatedInformers, k) ==> handlersOK(rm.relatedInformers[k].informerWrapper)
 //@   safety C13
 //@   at informerWrapper.RemoveEventHandlers(iw) [C20,C18]: iw == cur(informer).informerWrapper
 //@   at ResourceInformer.Close(ri) [C20,C18]: ri == cur(informer) && count(ResourceInformer.Close) == count(informerWrapper.RemoveEventHandlers)
 //@   invariant loop 1 [C20,C18]: count(ResourceInformer.Close) == count(informerWrapper.RemoveEventHandlers)
-//@   invariant loop 1 [C20,C18]: forall k schema.GroupVersionResource :: has(rm.relatedInformers, k) && !visited(1, k) ==> validInformer(rm.relatedInformers[k]) && handlersOK(rm.relatedInformers[k].informerWrapper)
+//@   invariant loop 1 [C20,C18]: forall k schema.GroupVersionResource :: has(rm.relatedInformers, k) && !visited(1, k) ==> validInformer(rm.relatedInformers[k])
 //@   noexit loop 1 [C20,C18]
 
 //@ func NewCustomizeManager(name, enqueueParent, controller, dynClient, dynInformers, parentInformers, parentKinds, logger, controllerType) (rm, err)
